@@ -47,7 +47,7 @@ CATS = ["a", "b", "c", "d", "e"]
 
 
 NUM_KINDS_MIN_TIED = ["zero_inflated", "binary", "constant"]          # minimum == first quartile (zero-width first bucket)
-NUM_KINDS_OTHER = ["mid_ties", "top_ties", "single_value", "all_missing", "generic"]
+NUM_KINDS_OTHER = ["mid_ties", "top_ties", "single_value", "generic"]   # "all_missing" exists but is a reported finding
 
 
 def gen_num_col(rng, n, kind, miss_p):
